@@ -5,9 +5,11 @@ P("C21",
   title="Reorder buffers release responses in arrival order",
   design_ref="DESIGN.md §3 C21",
   technique="Coq proof (ghost-instrumented invariant through bottomUp/parseBottom/topDown, the width loops, Tick and arbitrary "
-            "environment scripts) + exact tick-level model/impl correspondence by vm_compute (port traffic incl. generated IDs)",
+            "environment scripts incl. control verbs and checkpoint round trips) + exact tick-level model/impl correspondence by vm_compute (port traffic incl. generated IDs)",
   level_text="Theorems c21_* prove for every buffer size, width, port capacity and every environment script (any lower-unit "
-             "completion order, delay, duplicate / wrong-kind / stray answers, any back-pressure): the k-th response put on Top "
+             "completion order, delay, duplicate / wrong-kind / stray answers, any back-pressure, any Pause/Drain/Enable/Reset/"
+             "unsupported control traffic, checkpoint round trips at any instant; a Reset forgets the accepted-but-unanswered "
+             "requests, the statements cover everything accepted before and after it): the k-th response put on Top "
              "answers the k-th accepted request (in order), goes to its source with RspTo = its ID and the right kind, carries "
              "the data of the last DataReady the lower unit returned for that request's own shadow id, the k-th shadow request "
              "carries that request's payload, and lower-unit responses are routed to the unique live transaction with that id. "
@@ -17,10 +19,11 @@ P("C21",
              "Trusted: Coq kernel + vm_compute; the Go harness (scripted requester and out-of-order lower unit); the hand-written "
              "model of middleware.go. Ghost fields (accepted list, released list, per-transaction recorded answers) are never read "
              "by the model functions.",
-  assumptions=["no control traffic: the ROB stays Enabled (processControlMsg finds the Control port empty)",
+  assumptions=["Component.SaveCheckpoint/LoadCheckpoint is the identity on the modelled State fields (checked by the tie: round trips "
+               "are taken mid-run with requests in flight); ports and the ID generator are not part of a component checkpoint",
                "only memprotocol.AccessReq messages arrive at Top (anything else panics in topDown)",
                "timing.GetIDGenerator() is the sequential generator; tracing calls are no-ops without hooks (checked by the exact ID tie)",
                "ports are bounded FIFOs (C11); the component is driven by Tick() with messages delivered/drained at the ports"],
   trusted=["modelled, not verified: mem/rob/middleware.go (Tick, runPipeline, topDown, parseBottom, bottomUp, "
-           "findTransactionByBottomID, buildShadowReq, buildTopRsp); control verbs (Pause/Drain/Reset) are not modelled"],
+           "findTransactionByBottomID, buildShadowReq, buildTopRsp, processControlMsg, completePendingDrain, handlePause/Drain/Enable/Reset/Unsupported)"],
   )
